@@ -94,12 +94,19 @@ func (i *Interpreter) Interpret(statements []ast.Stmt, isRepl bool) []interface{
 
 func (i *Interpreter) eval(expr ast.Expr, env *environment.Environment, isRepl bool) (interface{}, *ControlFlowSignal) {
 	vhook.Step(expr)
+	if utils.HadRuntimeError {
+		// a runtime error has been reported: evaluate nothing further
+		return nil, &ControlFlowSignal{Type: ControlFlowNone, LineNumber: 0}
+	}
 	// fmt.Printf("%T\n", expr)
 	switch e := expr.(type) {
 	case *ast.PropertyAssignment:
 		objectValue, signal := i.eval(e.Object, env, isRepl)
 		if signal.Type != ControlFlowNone {
 			return nil, signal
+		}
+		if utils.HadRuntimeError {
+			return nil, &ControlFlowSignal{Type: ControlFlowNone, LineNumber: 0}
 		}
 
 		// Ensure the object is a map
@@ -113,6 +120,9 @@ func (i *Interpreter) eval(expr ast.Expr, env *environment.Environment, isRepl b
 		newValue, signal := i.eval(e.Value, env, isRepl)
 		if signal.Type != ControlFlowNone {
 			return nil, signal
+		}
+		if utils.HadRuntimeError {
+			return nil, &ControlFlowSignal{Type: ControlFlowNone, LineNumber: 0}
 		}
 
 		// Assign the new value to the property
@@ -129,6 +139,9 @@ func (i *Interpreter) eval(expr ast.Expr, env *environment.Environment, isRepl b
 			if signal.Type != ControlFlowNone {
 				return nil, signal
 			}
+			if utils.HadRuntimeError {
+				return nil, &ControlFlowSignal{Type: ControlFlowNone, LineNumber: 0}
+			}
 			
 			// If 'value' is a []rune, convert it to a string
 			if runes, ok := value.([]rune); ok {
@@ -144,6 +157,9 @@ func (i *Interpreter) eval(expr ast.Expr, env *environment.Environment, isRepl b
 		objectValue, signal := i.eval(e.Object, env, isRepl)
 		if signal.Type != ControlFlowNone {
 			return nil, signal
+		}
+		if utils.HadRuntimeError {
+			return nil, &ControlFlowSignal{Type: ControlFlowNone, LineNumber: 0}
 		}
 
 		object, ok := objectValue.(map[string]interface{})
@@ -168,6 +184,9 @@ func (i *Interpreter) eval(expr ast.Expr, env *environment.Environment, isRepl b
 			if signal.Type != ControlFlowNone {
 				return nil, signal
 			}
+			if utils.HadRuntimeError {
+				return nil, &ControlFlowSignal{Type: ControlFlowNone, LineNumber: 0}
+			}
 			elements = append(elements, value)
 		}
 		return elements, &ControlFlowSignal{Type: ControlFlowNone, LineNumber: 0}
@@ -177,10 +196,16 @@ func (i *Interpreter) eval(expr ast.Expr, env *environment.Environment, isRepl b
 		if signal.Type != ControlFlowNone {
 			return nil, signal
 		}
+		if utils.HadRuntimeError {
+			return nil, &ControlFlowSignal{Type: ControlFlowNone, LineNumber: 0}
+		}
 
 		indexValue, signal := i.eval(e.Index, env, isRepl)
 		if signal.Type != ControlFlowNone {
 			return nil, signal
+		}
+		if utils.HadRuntimeError {
+			return nil, &ControlFlowSignal{Type: ControlFlowNone, LineNumber: 0}
 		}
 
 		// Ensure the array is a slice and the index is a number
@@ -209,15 +234,24 @@ func (i *Interpreter) eval(expr ast.Expr, env *environment.Environment, isRepl b
 		if signal.Type != ControlFlowNone {
 			return nil, signal
 		}
+		if utils.HadRuntimeError {
+			return nil, &ControlFlowSignal{Type: ControlFlowNone, LineNumber: 0}
+		}
 
 		indexValue, signal := i.eval(e.Index, env, isRepl)
 		if signal.Type != ControlFlowNone {
 			return nil, signal
 		}
+		if utils.HadRuntimeError {
+			return nil, &ControlFlowSignal{Type: ControlFlowNone, LineNumber: 0}
+		}
 
 		newValue, signal := i.eval(e.Value, env, isRepl)
 		if signal.Type != ControlFlowNone {
 			return nil, signal
+		}
+		if utils.HadRuntimeError {
+			return nil, &ControlFlowSignal{Type: ControlFlowNone, LineNumber: 0}
 		}
 
 		// Ensure the array is a slice and the index is a number
@@ -255,6 +289,9 @@ func (i *Interpreter) eval(expr ast.Expr, env *environment.Environment, isRepl b
 			if signal.Type != ControlFlowNone {
 				return nil, signal
 			}
+			if utils.HadRuntimeError {
+				return nil, &ControlFlowSignal{Type: ControlFlowNone, LineNumber: 0}
+			}
 			value = v
 		}
 		return nil, &ControlFlowSignal{Type: ControlFlowReturn, Value: value, LineNumber: e.Keyword.Line}
@@ -266,6 +303,9 @@ func (i *Interpreter) eval(expr ast.Expr, env *environment.Environment, isRepl b
 
 		if signal.Type != ControlFlowNone {
 			return nil, signal
+		}
+		if utils.HadRuntimeError {
+			return nil, &ControlFlowSignal{Type: ControlFlowNone, LineNumber: 0}
 		}
 
 		// Ensure the callee is a callable function
@@ -286,6 +326,9 @@ func (i *Interpreter) eval(expr ast.Expr, env *environment.Environment, isRepl b
 			argValue, signal := i.eval(arg, env, isRepl)
 			if signal.Type != ControlFlowNone {
 				return nil, signal
+			}
+			if utils.HadRuntimeError {
+				return nil, &ControlFlowSignal{Type: ControlFlowNone, LineNumber: 0}
 			}
 			arguments = append(arguments, argValue)
 		}
@@ -441,6 +484,9 @@ func (i *Interpreter) eval(expr ast.Expr, env *environment.Environment, isRepl b
 		if signal.Type != ControlFlowNone {
 			return nil, signal
 		}
+		if utils.HadRuntimeError {
+			return nil, &ControlFlowSignal{Type: ControlFlowNone, LineNumber: 0}
+		}
 		if isTruthy(cc) {
 			_, signal := i.eval(e.ThenBranch, env, isRepl)
 			if signal.Type != ControlFlowNone {
@@ -460,6 +506,9 @@ func (i *Interpreter) eval(expr ast.Expr, env *environment.Environment, isRepl b
 			return nil, signal
 		}
 		// fmt.Printf("%v %v %v\n", left, e.Operator.Type, token.OR)
+		if utils.HadRuntimeError {
+			return nil, &ControlFlowSignal{Type: ControlFlowNone, LineNumber: 0}
+		}
 		if e.Operator.Type == token.LOGICAL_OR {
 			if isTruthy(left) {
 				return left, &ControlFlowSignal{Type: ControlFlowNone, LineNumber: 0}
@@ -477,6 +526,9 @@ func (i *Interpreter) eval(expr ast.Expr, env *environment.Environment, isRepl b
 			if signal.Type != ControlFlowNone {
 				return nil, signal // Propagate signal upwards
 			}
+			if utils.HadRuntimeError {
+				return nil, &ControlFlowSignal{Type: ControlFlowNone, LineNumber: 0}
+			}
 			if !isTruthy(condVal) {
 				break
 			}
@@ -487,6 +539,9 @@ func (i *Interpreter) eval(expr ast.Expr, env *environment.Environment, isRepl b
 			}
 			if signal.Type == ControlFlowReturn {
 				return nil, signal // A return inside the body leaves the loop and the function
+			}
+			if utils.HadRuntimeError {
+				return nil, &ControlFlowSignal{Type: ControlFlowNone, LineNumber: 0}
 			}
 		}
 		return nil, &ControlFlowSignal{Type: ControlFlowNone, LineNumber: 0}
@@ -499,6 +554,9 @@ func (i *Interpreter) eval(expr ast.Expr, env *environment.Environment, isRepl b
 			if signal.Type != ControlFlowNone {
 				return nil, signal
 			}
+			if utils.HadRuntimeError {
+				return nil, &ControlFlowSignal{Type: ControlFlowNone, LineNumber: 0}
+			}
 		}
 
 		for {
@@ -507,6 +565,9 @@ func (i *Interpreter) eval(expr ast.Expr, env *environment.Environment, isRepl b
 				condVal, signal := i.eval(e.Condition, newEnvironement, isRepl)
 				if signal.Type != ControlFlowNone {
 					return nil, signal
+				}
+				if utils.HadRuntimeError {
+					return nil, &ControlFlowSignal{Type: ControlFlowNone, LineNumber: 0}
 				}
 				if !isTruthy(condVal) {
 					break
@@ -522,12 +583,18 @@ func (i *Interpreter) eval(expr ast.Expr, env *environment.Environment, isRepl b
 			} else if signal.Type != ControlFlowNone {
 				return nil, signal
 			}
+			if utils.HadRuntimeError {
+				return nil, &ControlFlowSignal{Type: ControlFlowNone, LineNumber: 0}
+			}
 
 			// Execute the increment
 			if e.Increment != nil {
 				_, signal := i.eval(e.Increment, newEnvironement, isRepl)
 				if signal.Type != ControlFlowNone {
 					return nil, signal
+				}
+				if utils.HadRuntimeError {
+					return nil, &ControlFlowSignal{Type: ControlFlowNone, LineNumber: 0}
 				}
 			}
 		}
